@@ -138,6 +138,12 @@ def goalF : Nat → Bool → P G
     else if t == "ltfd" then t2 (ltfdG ord0)
     else if t == "diseqfd" then t2 (diseqfdG ord0)
     else if t == "distinctfd" then t1 (distinctfdG ord0)
+    else if t == "closure" then
+      match nat ts with
+      | some (k, ts) => match goalsF n dfs k ts with
+        | some (gs, ts) => some (.dyn id (fun _ => if dfs then Goal.conjDOfList gs else Goal.conjOfList gs), ts)
+        | none => none
+      | none => none
     else if t == "probe" then some (.atom (liftRes fun st => .ok st), ts)
     else if t == "plusz" then t3 (pluszG ord0)
     else if t == "timesz" then t3 (timeszG ord0)
